@@ -131,6 +131,13 @@ class SoftwareManager:
                 config=software_config,
             )
 
+        if software.name in self.software:
+            # Already installed, e.g. system software that the scenario declares again with its own options: replace the
+            # existing instance. Otherwise it would stay in the node's service/application list (still ticked and
+            # reported), shadowed by the new instance that owns the name in self.software and in the request routes.
+            self.sys_log.info(f"Replacing installed {software.name} with a new instance")
+            self.uninstall(software.name)
+
         software.parent = self.node
         if isinstance(software, Application):
             self.node.applications[software.uuid] = software
